@@ -252,6 +252,12 @@ mod ipv6_global {
             || matches!(a.segments(), [0x64, 0xff9b, 1, _, _, _, _, _])
             // Discard-Only Address Block (`100::/64`)
             || matches!(a.segments(), [0x100, 0, 0, 0, _, _, _, _])
+            // Dummy IPv6 Prefix (`100:0:0:1::/64`, RFC 9780)
+            || matches!(a.segments(), [0x100, 0, 0, 1, _, _, _, _])
+            // Documentation (`3fff::/20`, RFC 9637)
+            || matches!(a.segments(), [0x3fff, b, _, _, _, _, _, _] if b < 0x1000)
+            // Segment Routing (SRv6) SIDs (`5f00::/16`, RFC 9602)
+            || matches!(a.segments(), [0x5f00, _, _, _, _, _, _, _])
             // IETF Protocol Assignments (`2001::/23`)
             || (matches!(a.segments(), [0x2001, b, _, _, _, _, _, _] if b < 0x200)
                 && !(
